@@ -1,5 +1,54 @@
 import Driver.Proto
-/-! C05 handler (not implemented yet). -/
+import ThunderModel.Batch
+/-! C05 handler: replays a labelled trace of `Invoke` steps. -/
+open Lean TM.Batch
+
 namespace Driver.C05
-def handle : Handler := fun _ => throw "C05: no model yet"
+
+def decOutcome (j : Json) : Except String Outcome :=
+  match j with
+  | .str "err" => pure .err
+  | .str "panic" => pure .panic
+  | _ => do pure (.ok (← nats (← j.getObjVal? "ok")))
+
+def decLabel (j : Json) : Except String Label := do
+  let a ← j.getArr?
+  let name ← (a[0]?.getD Json.null).getStr?
+  let n (i : Nat) : Except String Nat := (a[i]?.getD Json.null).getNat?
+  match name with
+  | "join" => pure (.join (← n 1) (← n 2))
+  | "wake" => pure (.wake (← n 1))
+  | "unpublish" => pure (.unpublish (← n 1))
+  | "run" => pure (.run (← n 1) (← decOutcome (a[2]?.getD Json.null)))
+  | "ret" => pure (.ret (← n 1))
+  | "cancel" => pure .cancel
+  | _ => throw s!"unknown label {name}"
+
+def encPC : PC → Json
+  | .joined => "joined" | .woke => "woke" | .unpublished => "unpublished" | .waiting => "waiting" | .ran => "ran"
+  | .returned none => Json.mkObj [("returned", Json.null)]
+  | .returned (some v) => Json.mkObj [("returned", (v : Json))]
+
+def snap (s : St) : Json :=
+  Json.mkObj [
+    ("calls", jList (fun (c : Call) => Json.mkObj [("group", (c.group : Json)), ("index", (c.index : Json)), ("creator", c.creator), ("pc", encPC c.pc)]) s.calls),
+    ("groups", jList (fun (g : Group) => Json.mkObj [("args", jNats g.args), ("published", g.published), ("many", (g.manyCalls : Json)),
+        ("done", match g.done with | none => Json.null | some none => "err" | some (some rs) => jNats rs)]) s.groups)]
+
+def replay (s : St) : List Label → List Json
+  | [] => []
+  | l :: ls =>
+      match step? s l with
+      | none => [Json.mkObj [("enabled", false)]]
+      | some s' => Json.mkObj [("enabled", true), ("state", snap s')] :: replay s' ls
+
+def handle : Handler := fun req => do
+  let op ← str req "op"
+  match op with
+  | "run" =>
+    let m ← nat req "maxSize"
+    let ls ← listOf decLabel (← field req "labels")
+    pure <| Json.mkObj [("steps", Json.arr (replay (init m) ls).toArray)]
+  | _ => throw s!"C05: unknown op {op}"
+
 end Driver.C05
